@@ -206,7 +206,7 @@ def run_t1(harness, driver, mode_args, work, tag, seed):
     """runs the harness (nodeio or ops) and the model replay; returns dict(stats), first mismatch or None"""
     work.mkdir(parents=True, exist_ok=True)
     impl, model = work / f"{tag}.impl.txt", work / f"{tag}.model.txt"
-    rc, out = V.run([harness] + mode_args + [str(impl)], timeout=tmo(90, 900), env={"VERIF_SEED": str(seed)})
+    rc, out = V.run([harness] + mode_args + [str(impl)], timeout=tmo(45, 900), env={"VERIF_SEED": str(seed)})
     crashed = None
     if rc != 0:
         ops, pending = last_try(impl)
@@ -301,7 +301,7 @@ def run_t2(harness, driver, designs, work, seed, extra=1, nproc=None):
             return
         pf = work / f"designs{i}.txt"
         G.write_programs(pf, [d[0] for d in shards[i]])
-        rc, out = V.run([harness, "design", str(pf), str(work), "def,min", str(extra)], timeout=tmo(90, 900), env={"VERIF_SEED": str(seed)})
+        rc, out = V.run([harness, "design", str(pf), str(work), "def,min", str(extra)], timeout=tmo(60, 900), env={"VERIF_SEED": str(seed)})
         if rc != 0:
             crashed.append(dict(shard=i, rc=rc, out=out[-800:], designs=[d[0][0].split()[1] for d in shards[i]]))
     with concurrent.futures.ThreadPoolExecutor(max_workers=nproc) as ex:
